@@ -13,6 +13,7 @@ CONSTANTS
   Getters = {}
   Interrupters = {5}
   Fixed = TRUE
+  LockedInterrupt = TRUE
   Contig = TRUE
   KeepHist = 0
 PROPERTIES
